@@ -68,14 +68,15 @@ def run(pid, tier, seed):
             return "event" if name.endswith(".evtx") else "entry" if name.endswith(".journal") else "record" if "tmp" in name else "text"
         kinds_of = {si: {w: kind_of(n_) for w, n_ in enumerate(files)} for si, (_d, files, _w) in enumerate(sets)}
         optsets = [[], ["-n"], ["-p", "-w", "-u"], ["-n", "-u", "-d", "%H:%M:%S%.6f", "--prepend-separator=|"], ["--separator=--\\n"],
-                   ["-n", "-l", "--separator=\\t", "--color", "always"], ["-w", "-n", "-z", "+05:30", "--separator=\\n"]]
+                   ["-n", "-l", "--separator=\\t", "--color", "always"], ["-w", "-n", "-z", "+05:30", "--separator=\\n"],
+                   ["--separator=\u00a7\u00a7\\n"], ["-n", "--separator=\u2500"], ["-p", "--prepend-separator=\u2502", "--separator=\u65e5\\n"]]
         windows = {0: [[], ["-a", "2023-03-10T03:49:43.561000+00:00"], ["-a", "2023-03-10T03:49:43.560+00:00", "-b", "2023-03-10T03:49:43.566+00:00"]],
                    1: [[], ["-b", "2023-04-02T07:07:00.789680+00:00"]],
                    2: [[], ["-a", gen.fmt_ts(gen.BASE + 2, 0, 0, 0)], ["-a", "2030-01-01"]]}
         jobs = []
         for si in range(len(sets)):
             for win in windows[si]:
-                for o in (optsets if tier == "thorough" else rng.sample(optsets, 4)):
+                for o in (optsets if tier == "thorough" else rng.sample(optsets[:7], 3) + [rng.choice(optsets[7:])]):
                     jobs.append((si, win, o))
 
         def do(job):
@@ -142,7 +143,8 @@ def run(pid, tier, seed):
             seplen = 0
             for x in o:
                 if x.startswith("--separator="):
-                    seplen = len(x.split("=", 1)[1].encode().decode("unicode_escape").encode("latin-1"))
+                    # (the backslash escapes used here are \n and \t; everything else is written as UTF-8)
+                    seplen = len(x.split("=", 1)[1].encode("utf-8").replace(b"\\n", b"\n").replace(b"\\t", b"\t"))
             pos = 0
             text_lines = 0
             ok_split = True
